@@ -13,12 +13,12 @@ From Soy Require Import Model.Bytes Model.Utf8 Model.Num Model.Values Spec.Codec
 Open Scope N_scope.
 
 Inductive jvalue :=
-| JNull
-| JBool (x : bool)
-| JNum (neg : bool) (m : N) (e : Z)
-| JStr (s : bstr)
-| JArr (l : list jvalue)
-| JObj (m : list (bstr * jvalue)).
+| JvNull
+| JvBool (x : bool)
+| JvNum (neg : bool) (m : N) (e : Z)
+| JvStr (s : bstr)
+| JvArr (l : list jvalue)
+| JvObj (m : list (bstr * jvalue)).
 
 (* ---- lexical helpers ---- *)
 Definition is_ws (c : N) : bool := (c =? 32) || (c =? 9) || (c =? 10) || (c =? 13).
@@ -94,7 +94,7 @@ Definition json_number (s : bstr) : option (jvalue * bstr) :=
       | Some (m, nfrac, s3) =>
           match num_exp s3 with
           | None => None
-          | Some (ex, s4) => let '(m', e') := dec_norm m (ex - Z.of_nat nfrac)%Z in Some (JNum neg m' e', s4)
+          | Some (ex, s4) => let '(m', e') := dec_norm m (ex - Z.of_nat nfrac)%Z in Some (JvNum neg m' e', s4)
           end
       end
   end.
@@ -178,19 +178,19 @@ Section Loops.
     match skip_ws s with
     | [] => None
     | c :: r =>
-        if c =? 110 then (if is_prefix lit_null (c :: r) then Some (JNull, drop 4 (c :: r)) else None)
-        else if c =? 116 then (if is_prefix lit_true (c :: r) then Some (JBool true, drop 4 (c :: r)) else None)
-        else if c =? 102 then (if is_prefix lit_false (c :: r) then Some (JBool false, drop 5 (c :: r)) else None)
-        else if c =? 34 then match json_string_at r with Some (v, r') => Some (JStr v, r') | None => None end
+        if c =? 110 then (if is_prefix lit_null (c :: r) then Some (JvNull, drop 4 (c :: r)) else None)
+        else if c =? 116 then (if is_prefix lit_true (c :: r) then Some (JvBool true, drop 4 (c :: r)) else None)
+        else if c =? 102 then (if is_prefix lit_false (c :: r) then Some (JvBool false, drop 5 (c :: r)) else None)
+        else if c =? 34 then match json_string_at r with Some (v, r') => Some (JvStr v, r') | None => None end
         else if c =? 91 then
           match eat 93 (skip_ws r) with
-          | Some r' => Some (JArr [], r')
-          | None => match jv_elems g (skip_ws r) with Some (xs, r') => Some (JArr xs, r') | None => None end
+          | Some r' => Some (JvArr [], r')
+          | None => match jv_elems g (skip_ws r) with Some (xs, r') => Some (JvArr xs, r') | None => None end
           end
         else if c =? 123 then
           match eat 125 (skip_ws r) with
-          | Some r' => Some (JObj [], r')
-          | None => match jv_members g (skip_ws r) with Some (ms, r') => Some (JObj ms, r') | None => None end
+          | Some r' => Some (JvObj [], r')
+          | None => match jv_members g (skip_ws r) with Some (ms, r') => Some (JvObj ms, r') | None => None end
           end
         else json_number (c :: r)
     end.
@@ -216,35 +216,35 @@ Definition json_parse (s : bstr) : option jvalue :=
    identity of a collection is not part of its structure.  NaN and the infinities
    have no JSON text. ---- *)
 Definition num_of_Z (z : Z) : jvalue :=
-  let '(m, e) := dec_norm (Z.abs_N z) 0 in JNum (z <? 0)%Z m e.
+  let '(m, e) := dec_norm (Z.abs_N z) 0 in JvNum (z <? 0)%Z m e.
 
 Definition num_of_fl (x : fl) : option jvalue :=
   match x with
-  | FZero n => Some (JNum n 0 0%Z)
+  | FZero n => Some (JvNum n 0 0%Z)
   | FFin m e =>
       let a := Z.abs_N m in
       let '(m', e') := if (0 <=? e)%Z then dec_norm (a * 2 ^ Z.to_N e) 0
                        else dec_norm (a * 5 ^ Z.to_N (- e)) e in      (* a * 2^e = a * 5^(-e) * 10^e *)
-      Some (JNum (m <? 0)%Z m' e')
+      Some (JvNum (m <? 0)%Z m' e')
   | FNaN | FInf _ => None
   end.
 
 Fixpoint jv_of_value (v : value) : option jvalue :=
   match v with
-  | VUndef | VNull => Some JNull
-  | VBool x => Some (JBool x)
+  | VUndef | VNull => Some JvNull
+  | VBool x => Some (JvBool x)
   | VInt z => Some (num_of_Z z)
   | VFloat x => num_of_fl x
-  | VStr s => Some (JStr s)
+  | VStr s => Some (JvStr s)
   | VList _ l =>
-      option_map JArr
+      option_map JvArr
         ((fix go (l : list value) : option (list jvalue) :=
             match l with
             | [] => Some []
             | x :: r => match jv_of_value x, go r with Some j, Some js => Some (j :: js) | _, _ => None end
             end) l)
   | VMap _ m =>
-      option_map JObj
+      option_map JvObj
         ((fix go (m : list (bstr * value)) : option (list (bstr * jvalue)) :=
             match m with
             | [] => Some []
